@@ -269,6 +269,7 @@ CONTROLS = [
     C('fire-parent-not-set', 'fire', ['C06', 'C18'], sub("        self._unordered_children.append(child)\n        child._parent = self\n        return child", "        self._unordered_children.append(child)\n        return child", XE), 'R-PAIR.add'),
     C('fire-revert-F5', 'fire', ['C06'], revert_commit('9774017'), 'R-PAIR.replace'),
     C('fire-revert-F9', 'fire', ['C06'], revert_commit('09fcebd'), 'R-CONS.rehome'),
+    C('fire-revert-F10', 'fire', ['C06', 'C11'], revert_commit('58e301d'), 'R-PAIR.remove'),
     C('fire-back-pointer-not-cleared', 'fire', ['C06'], sub("            child.parent_xsd_element.xml_elements.remove(child)\n            child.parent_xsd_element = None\n", "            child.parent_xsd_element.xml_elements.remove(child)\n", XE), 'R-PAIR.remove'),
     C('fire-foreign-writer', 'fire', ['C06'], sub("    def find_child(self, name: Union['XMLElement', str], ordered: bool = False) -> 'XMLElement':\n", "    def find_child(self, name: Union['XMLElement', str], ordered: bool = False) -> 'XMLElement':\n        self._unordered_children.sort(key=lambda ch: ch.name) if ordered else None\n", XE), 'R-OWN.children'),
     C('silent-rename-local-replace', 'silent', ['C06', 'C01', 'C10'], rename_local(XE, 'XMLElement.replace_child', 'old_child', 'replaced'), None, 'renaming a local'),
